@@ -529,13 +529,15 @@ impl Engine for C13 {
                 }
                 "force" => {
                     // lazy values that crossed heaps unevaluated are forced on the side that holds
-                    // them now: the result has to end up in the holder's heap (walker below)
+                    // them now: the result has to end up in the holder's heap (walker below). Each lazy is
+                    // forced once: whether a second force returns the very same object as the first depends
+                    // on whether the forcing thread owns the cell, which the property does not fix
                     let s = op["slot"].as_u64().unwrap_or(0) as usize;
                     let mut forced_slot: Option<usize> = None;
                     if let Some(Some(slot)) = world.slots.get(s) {
                         if slot.lazy_array {
                             let thread = slot.value.vm().clone();
-                            let fsrc = format!("{}{}(\\a -> [lz.force (array.index a 0), lz.force (array.index a 1), lz.force (array.index a 0)])\n", gen::PREAMBLE, EXTRA);
+                            let fsrc = format!("{}{}(\\a -> [lz.force (array.index a 0), lz.force (array.index a 1)])\n", gen::PREAMBLE, EXTRA);
                             if let Ok((f, _)) = thread.run_expr::<OpaqueValue<RootedThread, Hole>>(&format!("force{}", i), &fsrc) {
                                 let mut f: OwnedFunction<fn(OpaqueValue<RootedThread, Hole>) -> OpaqueValue<RootedThread, Hole>> =
                                     Getable::from_value(&thread, f.get_variant());
